@@ -30,7 +30,7 @@ ASSUMPTIONS = [
 from vf.props.c01_views import DNA_COMP, RNA_COMP
 
 RESIDUES = {
-    "dna": ["ACGTRA", "GTYACC", "CANGTT"],
+    "dna": ["A?GTRA", "GTYACC", "CANGTT"],  # "?" (missing data) is a symbol of its own: some operations count it as a gap
     "rna": ["ACGURA", "GUYACC", "CANGUU"],
     "protein": ["ACDEFG", "GHIKLA", "MNPQXW"],
 }
@@ -122,7 +122,7 @@ def model_apply(m: Model, op):
         return Model({n: "".join(motifs[n][i] for i in keep) for n in rows}, m.mol)
     if k == "degapped_relative_to":
         ref = rows[op[1]]
-        cols = [i for i, c in enumerate(ref) if not is_gap(c)]
+        cols = [i for i, c in enumerate(ref) if c != "-"]  # both classes: only the gap character, "?" is kept
         return Model({n: "".join(s[i] for i in cols) for n, s in rows.items()}, m.mol)
     if k == "sample":
         idx, ml = op[1], op[2]
@@ -175,8 +175,21 @@ def real_apply(aln, op, mol):
         import numpy
 
         idx, ml = list(op[1]), op[2]
-        return aln.sample(n=len(idx), with_replacement=op[3], motif_length=ml,
-                          randint=lambda lo, hi, n: numpy.array(idx), permutation=lambda n: numpy.array(idx + [i for i in range(n) if i not in idx]))
+        given = {}
+
+        def randint(lo, hi, n):
+            given["a"] = numpy.array(idx)
+            return given["a"]
+
+        def permutation(n):
+            given["a"] = numpy.array(idx + [i for i in range(n) if i not in idx])
+            return given["a"]
+
+        out = aln.sample(n=len(idx), with_replacement=op[3], motif_length=ml, randint=randint, permutation=permutation)
+        # the index vector belongs to the caller (a replicate study re-uses it): it must come back unchanged
+        if "a" in given and given["a"][: len(idx)].tolist() != idx:
+            raise RuntimeError("sample() changed the index array supplied through randint= / permutation=")
+        return out
     if k == "concat":
         other = make_aln(op[1], mol, type(aln).__name__ == "ArrayAlignment")
         return aln + other
